@@ -43,6 +43,6 @@ func runC13(c *core.Check) {
 	if c.Tier == "thorough" {
 		e1c = map[string]string{"MaxD": "2", "Level2": "\"core\""}
 	}
-	streamTLC(c, core.TLCRun{Module: "MC_E1", Parts: 4, Consts: e1c, Timeout: minutes(30), KeepVars: []string{"e", "fv", "last"}},
+	streamTLC(c, core.TLCRun{Module: "MC_E1", NoPred: true, Parts: 4, Consts: e1c, Timeout: minutes(30), KeepVars: []string{"e", "fv", "last"}},
 		func(st core.State) { c13.HandleTemplate(c, st) })
 }
